@@ -31,6 +31,7 @@ RULE = ('Entry "fitfile": Hypothesis generates a package (distance-independent o
         'ineligible source; postproc = >=2 calls of which an earlier one used a tighter selector than a later one.')
 RULE += (' ' + 'Also varied: data lines that share a source name with different photometry, grids of 300 / 700 models, mixed storage (.gz).')
 RULE += (' ' + "Entry 'seq': sequences of 1..5 records written then read (fresh objects, one re-used Source object, or the same result written again after keep()). Data files end with or without a newline or with blank lines.")
+RULE += (' ' + 'A quarter of the data files use catalogue-style source names (with #, brackets, colons).')
 ASSUMPTIONS = [
     'the object interface used for comparison is Fitter(...same arguments...).fit(Source.from_ascii(line)) with the same '
     'memory-mapping default as fit()',
@@ -53,6 +54,12 @@ def data_lines(draw, nfilt, k, logmodels, distance_mode, dup_names=False):
         s = draw(gen.sources(nfilt, k=k if draw(st.booleans()) else None, logmodels=logmodels, distance_mode=distance_mode,
                              name='src%02d' % i, ignored='positive'))
         out.append(s)
+    if draw(st.integers(0, 3)) == 0:
+        # catalogue designations: any run of non-blank characters is a name ('#' included, leading or inside)
+        for i, s_ in enumerate(out):
+            style = draw(st.sampled_from(['plain', 'plain', 'hash_inside', 'hash_first', 'punct']))
+            if style != 'plain':
+                s_['name'] = {'hash_inside': 'N159#%d', 'hash_first': '#%d', 'punct': 'J05:32-66.4[%d]'}[style] % i
     if dup_names and n >= 2 and draw(st.integers(0, 3)) == 0:
         # catalogues list an object several times (several epochs, concatenated tables): lines sharing a name are still
         # separate sources with their own photometry
@@ -195,7 +202,7 @@ def run_fitfile(case, ctx):
             fail('metadata: %d filters, %d were passed' % (len(meta.filters), len(case['filters'])), 'c10:meta')
         for mf, f, th in zip(meta.filters, case['filters'], case['theta']):
             w = float(mf['wav'].to(u.micron).value)
-            if abs(w - f['wav']) > 1e-12 * f['wav'] or abs(mf['aperture_arcsec'] - th) > 1e-12 * th:
+            if not (abs(w - f['wav']) <= 1e-12 * f['wav']) or not (abs(mf['aperture_arcsec'] - th) <= 1e-12 * th):
                 fail('metadata: filter %r, passed wav=%r aperture=%r' % (mf, f['wav'], th), 'c10:meta')
             if case['format'] != 'v2wav' and mf.get('name') != f['name']:
                 fail('metadata: filter name %r != %r' % (mf.get('name'), f['name']), 'c10:meta')
